@@ -26,13 +26,21 @@ func InitGenesis(ctx sdk.Context, k keeper.Keeper, data types.GenesisState) {
 			panic(fmt.Errorf("unknown servcie request context: %s", entry.Feed.RequestContextID))
 		}
 
-		for _, value := range entry.Values {
+		// entry.Values is newest first. Store the oldest first, each under its own key
+		// ending at the context's current batch counter, so that the order survives
+		// (one key for all of them kept only the oldest) and the next batch is newer.
+		n := uint64(len(entry.Values))
+		base := reqCtx.BatchCounter
+		if base+1 < n {
+			base = n - 1
+		}
+		for i := n; i > 0; i-- {
 			k.SetFeedValue(
 				ctx,
 				entry.Feed.FeedName,
-				reqCtx.BatchCounter,
+				base-(i-1),
 				entry.Feed.LatestHistory,
-				value,
+				entry.Values[i-1],
 			)
 		}
 
